@@ -29,6 +29,7 @@ RULE = (
 )
 RULE += '; a third of the cases run a garbage collection between any two steps (fenced heap)'
 RULE += '; a collection right after every block in gc mode; same-instant histories (zero measured times)'
+RULE += '; a long-running task opening several scopes one after another while an inherited chain is being left (all linearisations)'
 LEVEL_TEXT = (
     "History invariant over the harness's own event log: every entered-and-left scope fires its completion exactly "
     "once, after its own exit and after the exit of every descendant created before it completed; from then on "
@@ -379,7 +380,22 @@ def strategy(tier):
         choices = None if exhaustive else draw(st.lists(st.sampled_from([0, 0, 0, 1, 1, 2]), min_size=0, max_size=24))
         return {"tasks": scripts, "choices": choices, "exhaustive": exhaustive, "gc": draw(st.integers(0, 3)) == 0, "same_instant": draw(st.integers(0, 3)) == 0}
 
-    return st.one_of(cases(), chain())
+    @st.composite
+    def late_sequence(draw):
+        """a long-running plain task that inherited the innermost scope of a chain opens several scopes ONE AFTER ANOTHER while
+        the chain is being left: each of them belongs under whatever ancestor is still open at that moment, under all
+        linearisations"""
+        def enter():
+            return {"s": "enter", "mode": draw(mode), "completion": draw(comp), "trace": None}
+
+        depth = draw(st.integers(2, 3))
+        root = [enter() for _ in range(depth)] + [{"s": "spawn", "via": "asyncio", "task": 1}] + [{"s": "exit"} for _ in range(depth)]
+        child = []
+        for _ in range(draw(st.integers(2, 5 - depth))):
+            child += [enter(), {"s": "exit"}]
+        return {"tasks": [root, child], "choices": None, "exhaustive": True, "gc": False, "same_instant": draw(st.integers(0, 3)) == 0}
+
+    return st.one_of(cases(), cases(), cases(), chain(), chain(), chain(), late_sequence())
 
 
 def budget(tier):
